@@ -94,8 +94,15 @@ def handle_disconnect_contract(world, target):
                                                    z3.Implies(has_d, entry_is(c, d1, n, event=A('disconnect'), ns=ns, args=reason_args)),
                                                    z3.Implies(has_f, entry_is(c, d1, n + k1, event=A('__disconnect_final'), ns=ns, args=PySeq([], 'tuple')))),
             'namespace-forgotten': z3.Not(n1.c['dom'][ns]),
-            'other-namespaces-kept': z3.ForAll([x], z3.Implies(x != ns, z3.And(n1.c['dom'][x] == n0.c['dom'][x], n1.c['.'][x] == n0.c['.'][x]))),
+            'other-namespaces-kept': z3.ForAll([x], z3.Implies(x != ns, z3.And(n1.c['dom'][x] == n0.c['dom'][x], z3.Implies(n0.c['dom'][x], n1.c['.'][x] == n0.c['.'][x])))),
             'connected-flag-cleared-with-the-last-namespace': connected(c.post) == z3.Not(n1.c['dom'] == z3.K(V, z3.BoolVal(False))),
+            'never-reconnects-after-the-server-ended-it': z3.And(sv_equiv(c.post.get(*TASKS), c.pre.get(*TASKS)), c.post.get(*RTASK).leaf() == c.pre.get(*RTASK).leaf()),
+            'last-namespace-gone.nothing-survives': z3.If(n1.c['dom'] == z3.K(V, z3.BoolVal(False)),
+                                                         z3.Implies(c.pre.get('eio', 'state').leaf() == CONNECTED,
+                                                                    z3.And(c.post.get(*CBS).c['dom'] == z3.K(V, z3.BoolVal(False)), z3.Not(c.post.get(*BINP).c['some']),
+                                                                           c.post.get(*SID).leaf() == NONE)),
+                                                         z3.And(sv_equiv(c.post.get(*CBS), c.pre.get(*CBS)), sv_equiv(c.post.get(*BINP), c.pre.get(*BINP)),
+                                                                c.post.get(*SID).leaf() == c.pre.get(*SID).leaf())),
         }
         return d
     is_conn = lambda c: connected(c.pre)
@@ -118,7 +125,8 @@ def handle_disconnect_contract(world, target):
                Case('namespace-not-connected', when=unknown, post=unknown_post, residual=unknown_residual),
                Case('namespace-not-connected.handler-raises', when=unknown, kind='raise', exc='Exception', post=lambda c: {}),
                Case('client-not-connected', when=lambda c: z3.Not(is_conn(c)), update=lambda c: None)],
-        modifies=[NSS, CONN, DISP, CALLS, ('eio', 'state'), CBS, BINP, SID, RTASK, TASKS], props=['C08'],
+        modifies=[NSS, CONN, DISP, CALLS, ('eio', 'state'), CBS, NEXT, BINP, SID, RTASK, TASKS], props=['C08', 'C10'],
+        inline=[target.replace('_handle_disconnect', '_handle_eio_disconnect')],
         must_fail=lambda c: {'connected-namespace:claims-kept': nss(c.post).c['dom'][ns_(c)]})
 
 
@@ -126,3 +134,204 @@ def register(reg):
     for w, m_, c_ in ((worlds.CLIENT, 'client', 'Client'), (worlds.ASYNC_CLIENT, 'async_client', 'AsyncClient')):
         reg.add(handle_connect_contract(w, '%s.%s._handle_connect' % (m_, c_)))
         reg.add(handle_disconnect_contract(w, '%s.%s._handle_disconnect' % (m_, c_)))
+
+
+# ============================================================================ transport loss and reconnection (C08, C10)
+from pyvc.dsl import log_append
+ATT = ('g', 'attempts')
+WAITS = ('g', 'waits')
+RTASK_ATOM = atom('task:_handle_reconnect')
+CONN_FIELDS = {'url': 'connection_url', 'headers': 'connection_headers', 'auth': 'connection_auth', 'transports': 'connection_transports',
+               'namespaces': 'connection_namespaces', 'path': 'socketio_path'}
+
+
+def will_reconnect(st):
+    return z3.And(smt.truthy(st.get('client', 'reconnection').leaf()), st.get('eio', 'state').leaf() == CONNECTED)
+
+
+def eio_disconnect_contract(world, target):
+    FINAL = A('__disconnect_final')
+    DISC = A('disconnect')
+
+    def new_entries(d0, d1, reason, done, will):
+        """shape of the dispatches made so far: only disconnect / final notifications of visited namespaces, each at most once"""
+        i, j = z3.Ints('ed_i ed_j')
+        n0 = d0.c['len']
+        isnew = lambda k: z3.And(k >= n0, k < d1.c['len'])
+        same = []
+        for nm in d0.c:
+            if nm != 'len':
+                same.append(d1.c[nm][i] == d0.c[nm][i])
+        return {
+            'earlier-dispatches-kept': z3.And(d1.c['len'] >= n0, z3.ForAll([i], z3.Implies(z3.And(i >= 0, i < n0), z3.And(*same)))),
+            'only-disconnect-notifications-of-connected-namespaces': z3.ForAll([i], z3.Implies(isnew(i), z3.And(
+                z3.Or(d1.c['event'][i] == DISC, d1.c['event'][i] == FINAL), done[d1.c['ns'][i]],
+                z3.Implies(d1.c['event'][i] == DISC, z3.And(d1.c['args#len'][i] == 1, d1.c['args#arr'][i][0] == reason)),
+                z3.Implies(d1.c['event'][i] == FINAL, z3.Not(will))))),
+            'each-namespace-at-most-once': z3.ForAll([i, j], z3.Implies(z3.And(isnew(i), isnew(j), i < j),
+                                                                        z3.Not(z3.And(d1.c['event'][i] == d1.c['event'][j], d1.c['ns'][i] == d1.c['ns'][j])))),
+        }
+
+    def at_least_once(c_pre, d0, d1, done, will):
+        n = z3.Const('al_n', V)
+        j = z3.Int('al_j')
+        n0 = d0.c['len']
+        has_d = c13.target_exists(c_pre, 'client', n, DISC, NAMES)
+        has_f = c13.target_exists(c_pre, 'client', n, FINAL, NAMES)
+        ex = lambda ev: z3.Exists([j], z3.And(j >= n0, j < d1.c['len'], d1.c['event'][j] == ev, d1.c['ns'][j] == n))
+        return {'disconnect-handler-ran-for-every-connected-namespace': z3.ForAll([n], z3.Implies(z3.And(done[n], has_d), ex(DISC))),
+                'final-notification-when-not-reconnecting': z3.ForAll([n], z3.Implies(z3.And(done[n], has_f, z3.Not(will)), ex(FINAL)))}
+
+    def inv(lc):
+        reason = lc.t('reason')
+        will = will_reconnect(lc.entry)
+        d0, d1 = lc.entry.get(*DISP), lc.cur.get(*DISP)
+        d = new_entries(d0, d1, reason, lc.done, will)
+        d.update(at_least_once(lc.entry, d0, d1, lc.done, will))
+        return d
+
+    def post(c):
+        reason = c.a.reason
+        will = will_reconnect(c.pre)
+        d0, d1 = c.pre.get(*DISP), c.post.get(*DISP)
+        was = connected(c.pre)
+        dom = z3.If(was, nss(c.pre).c['dom'], z3.K(V, z3.BoolVal(False)))
+        d = {}
+        for k_, v in new_entries(d0, d1, reason, dom, will).items():
+            d[k_] = v
+        for k_, v in at_least_once(c.pre, d0, d1, dom, will).items():
+            d[k_] = v
+        t0, t1 = c.pre.get(*TASKS), c.post.get(*TASKS)
+        rt0, rt1 = c.pre.get(*RTASK).leaf(), c.post.get(*RTASK).leaf()
+        start = z3.And(will, z3.Not(smt.truthy(rt0)))
+        d['not-connected.no-notifications'] = z3.Implies(z3.Not(was), sv_equiv(d1, d0))
+        d.update({
+            'no-namespace-left': z3.If(was, nss(c.post).c['dom'] == z3.K(V, z3.BoolVal(False)), sv_equiv(nss(c.post), nss(c.pre))),
+            'connected-flag-cleared': z3.Not(connected(c.post)),
+            'no-pending-callback-survives': c.post.get(*CBS).c['dom'] == z3.K(V, z3.BoolVal(False)),
+            'no-half-received-packet-survives': z3.Not(c.post.get(*BINP).c['some']),
+            'no-session-id-survives': c.post.get(*SID).leaf() == NONE,
+            'one-reconnection-effort-iff-accidental-loss-and-none-running': z3.If(
+                start, z3.And(log_grew(t0, t1, 1), t1.c['fn'][t0.c['len']] == RTASK_ATOM, t1.c['args#len'][t0.c['len']] == 0, smt.truthy(rt1)),
+                z3.And(sv_equiv(t1, t0), rt1 == rt0)),
+        })
+        return d
+    return Contract(
+        target=target, schema=world, self_obj='client', params={'reason': 'V'},
+        requires=lambda c: dict(base_req(c), **{'no-star-namespace': z3.Not(nss(c.pre).c['dom'][c13.STAR])}),
+        cases=[Case('transport-ended', post=post),
+               Case('transport-ended.handler-raises', kind='raise', exc='Exception', post=lambda c: {})],
+        loops={0: LoopSpec(inv, mod_state=[DISP, CALLS])},
+        modifies=[NSS, CONN, CBS, NEXT, BINP, SID, DISP, CALLS, TASKS, RTASK], props=['C08', 'C10'],
+        must_fail=lambda c: {'transport-ended:claims-callbacks-kept': sv_equiv(c.post.get(*CBS), c.pre.get(*CBS))})
+
+
+def connect_summary(world, target):
+    """Client.connect as _handle_reconnect sees it: it records the attempt with the values it was given and either returns
+    (connected) or raises ConnectionError / ValueError.  (Assumed here; the body of connect() is not under contract yet.)"""
+    def upd(ok):
+        def u(c):
+            log_append(c, 'g', 'attempts', url=c.a.url, headers=c.a.headers, auth=c.a.auth, transports=c.a.transports,
+                       namespaces=c.a.namespaces, path=c.a.socketio_path, ok=z3.BoolVal(ok))
+        return u
+    return Contract(
+        target=target, schema=world, self_obj='client',
+        params={'url': 'V', 'headers': 'V', 'auth': 'V', 'transports': 'V', 'namespaces': 'V', 'socketio_path': 'V', 'wait': 'V', 'wait_timeout': 'V', 'retry': 'V'},
+        cases=[Case('connected', update=upd(True)),
+               Case('refused', kind='raise', exc='sio.ConnectionError', update=upd(False)),
+               Case('invalid', kind='raise', exc='ValueError', update=upd(False))],
+        modifies=[ATT], trusted=True, props=['C10'], note='summary of Client.connect used by _handle_reconnect; assumed')
+
+
+dly = z3.Function('backoff_delay', z3.RealSort(), z3.IntSort(), z3.RealSort())     # dly(d, k) = d * 2**k (closed form: lemmas/Lemmas.lean)
+
+
+def reconnect_contract(world, target):
+    def cfg(st):
+        g = lambda f: st.get('client', f).leaf()
+        return g('reconnection_delay'), g('reconnection_delay_max'), g('randomization_factor'), g('reconnection_attempts')
+
+    def dly_facts(rd, k):
+        return z3.And(dly(rd, 0) == rd, dly(rd, k + 1) == 2 * dly(rd, k))
+
+    def waited_ok(w, idx, j, rd, rmax, rf, abort_ev):
+        """the wait before attempt j+1 (0-based j): min(rd * 2**j, max) give or take rf, on the abort event"""
+        base = z3.If(dly(rd, j) > rmax, rmax, dly(rd, j))
+        t = w.c['timeout'][idx]
+        return z3.And(w.c['ev'][idx] == abort_ev, t >= base - rf, t <= base + rf)
+
+    def attempt_ok(a, idx, st):
+        return z3.And(*[a.c[f][idx] == st.get('client', fld).leaf() for f, fld in CONN_FIELDS.items()])
+
+    def inv(lc):
+        rd, rmax, rf, natt = cfg(lc.entry)
+        k = lc.t('attempt_count')
+        cur = lc.t('current_delay')
+        w0, w1 = lc.entry.get(*WAITS), lc.cur.get(*WAITS)
+        a0, a1 = lc.entry.get(*ATT), lc.cur.get(*ATT)
+        abort_ev = lc.cur.get('client', '_reconnect_abort').leaf()
+        j = z3.Int('rc_j')
+        return {
+            'attempts-counted': z3.And(k >= 0, a1.c['len'] == a0.c['len'] + k, w1.c['len'] == w0.c['len'] + k),
+            'delay-doubles': cur == dly(rd, k),
+            'within-the-attempt-limit': z3.Implies(natt > 0, k < natt),
+            'each-wait-is-the-capped-backoff-with-jitter': z3.ForAll([j], z3.Implies(z3.And(j >= w0.c['len'], j < w0.c['len'] + k),
+                                                                                         waited_ok(w1, j, j - w0.c['len'], rd, rmax, rf, abort_ev)),
+                                                                     patterns=[w1.c['timeout'][j]]),
+            'each-attempt-uses-the-stored-parameters-and-failed': z3.ForAll([j], z3.Implies(z3.And(j >= a0.c['len'], j < a0.c['len'] + k),
+                                                                                                z3.And(attempt_ok(a1, j, lc.entry), z3.Not(a1.c['ok'][j]))),
+                                                                            patterns=[a1.c['ok'][j]]),
+            'config-kept': z3.And(*[lc.cur.get('client', f).leaf() == lc.entry.get('client', f).leaf()
+                                    for f in list(CONN_FIELDS.values()) + ['reconnection_delay', 'reconnection_delay_max', 'randomization_factor', 'reconnection_attempts']]),
+            'abort-event-kept': abort_ev != NONE,
+        }
+
+    def post(c):
+        rd, rmax, rf, natt = cfg(c.pre)
+        w0, w1 = c.pre.get(*WAITS), c.post.get(*WAITS)
+        a0, a1 = c.pre.get(*ATT), c.post.get(*ATT)
+        K = a1.c['len'] - a0.c['len']
+        W = w1.c['len'] - w0.c['len']
+        abort_ev = c.post.get('client', '_reconnect_abort').leaf()
+        j = z3.Int('rp_j')
+        last_ok = z3.And(K >= 1, a1.c['ok'][a1.c['len'] - 1])
+        aborted = W == K + 1
+        return {
+            'one-wait-before-each-attempt': z3.And(K >= 0, z3.Or(W == K, aborted)),
+            'each-wait-is-min(delay*2^(k-1),max)-give-or-take-the-jitter': z3.ForAll([j], z3.Implies(z3.And(j >= w0.c['len'], j < w1.c['len']),
+                                                                                                         waited_ok(w1, j, j - w0.c['len'], rd, rmax, rf, abort_ev))),
+            'same-url-headers-auth-transports-namespaces': z3.ForAll([j], z3.Implies(z3.And(j >= a0.c['len'], j < a1.c['len']), attempt_ok(a1, j, c.pre))),
+            'stops-at-the-first-success': z3.ForAll([j], z3.Implies(z3.And(j >= a0.c['len'], j < a1.c['len'] - 1), z3.Not(a1.c['ok'][j]))),
+            'at-most-reconnection_attempts-attempts': z3.Implies(natt > 0, K <= natt),
+            'abort-ends-the-effort-without-a-further-attempt': z3.Implies(aborted, w1.c['woke'][w1.c['len'] - 1]),
+            'gives-up-only-when-aborted-successful-or-out-of-attempts': z3.Or(aborted, last_ok, z3.And(natt > 0, K == natt)),
+            'task-slot-cleared-on-success': z3.Implies(z3.And(last_ok, z3.Not(aborted)), c.post.get(*RTASK).leaf() == NONE),
+        }
+    return Contract(
+        target=target, schema=world, self_obj='client', params={},
+        requires=lambda c: dict(base_req(c), **{'assume:backoff_delay(d,k)=d*2**k (definition)': z3.ForAll(
+                                                    [z3.Int('dk')], z3.Implies(z3.Int('dk') >= 0, z3.And(
+                                                        dly(c.pre.get('client', 'reconnection_delay').leaf(), 0) == c.pre.get('client', 'reconnection_delay').leaf(),
+                                                        dly(c.pre.get('client', 'reconnection_delay').leaf(), z3.Int('dk') + 1) ==
+                                                        2 * dly(c.pre.get('client', 'reconnection_delay').leaf(), z3.Int('dk'))))),
+                                                'randomization-factor-non-negative': c.pre.get('client', 'randomization_factor').leaf() >= 0,
+                                                'attempt-limit-non-negative': c.pre.get('client', 'reconnection_attempts').leaf() >= 0,
+                                                'connection-namespaces-is-a-list': smt.kind(c.pre.get('client', 'connection_namespaces').leaf()) == smt.K_LIST}),
+        cases=[Case('effort-ends', post=post),
+               Case('notification-handler-raises', kind='raise', exc='Exception', post=lambda c: {})],
+        loops={0: LoopSpec(inv, mod_vars=['attempt_count', 'current_delay', 'delay'], mod_state=[WAITS, ATT, ('g', 'events'), RTASK, DISP, CALLS],
+                           kinds={'delay': 'R'}),
+               1: LoopSpec(lambda lc: {}, mod_state=[DISP, CALLS]), 2: LoopSpec(lambda lc: {}, mod_state=[DISP, CALLS])},
+        modifies=[WAITS, ATT, ('g', 'events'), RTASK, DISP, CALLS, ('client', '_reconnect_abort')], props=['C10'],
+        must_fail=lambda c: {'effort-ends:claims-no-wait': c.post.get(*WAITS).c['len'] == c.pre.get(*WAITS).c['len']})
+
+
+_reg0 = register
+
+
+def register(reg):
+    _reg0(reg)
+    for w, m_, c_ in ((worlds.CLIENT, 'client', 'Client'), (worlds.ASYNC_CLIENT, 'async_client', 'AsyncClient')):
+        reg.add(eio_disconnect_contract(w, '%s.%s._handle_eio_disconnect' % (m_, c_)))
+        reg.add(connect_summary(w, '%s.%s.connect' % (m_, c_)))
+        reg.add(reconnect_contract(w, '%s.%s._handle_reconnect' % (m_, c_)))
